@@ -182,35 +182,40 @@ def evalRs : List RExp → M V → Option (List (RVal V))
     | none => none
     | some x => (evalRs rs m).map (x :: ·)
 
-/-- Semantics.  A failing store / codec call hands back zero values next to its error. -/
-def exec [Inhabited V] (C : Codec V) (f : V → Bool → FnRes V) (F : Faults) : Stmt → M V → Outc V
+/-- How the store reports an error: bare, or wrapped in further layers (`w`).  A `KVStore` may wrap its sentinel
+errors; callers have to test with `ierrors.Is`. -/
+def errW (w : Bool) (e : EV) : EV := if w then .wrap (.wrap e) else e
+
+/-- Semantics.  A failing store / codec call hands back zero values next to its error.  `w`: the store wraps the
+errors it returns (`ErrKeyNotFound` included). -/
+def exec [Inhabited V] (C : Codec V) (f : V → Bool → FnRes V) (F : Faults) (w : Bool) : Stmt → M V → Outc V
   | .skip, m => .cont m
   | .sync _, m => .cont m
-  | .seq a b, m => match exec C f F a m with
-    | .cont m' => exec C f F b m'
+  | .seq a b, m => match exec C f F w a m with
+    | .cont m' => exec C f F w b m'
     | o => o
   | .ite c a b, m => match evalB c m with
     | none => .panic m
-    | some true => exec C f F a m
-    | some false => exec C f F b m
+    | some true => exec C f F w a m
+    | some false => exec C f F w b m
   | .kvGet oy oe, m =>
     if kvFault F m.nkv then
-      .cont { m with env := (m.env.setY oy []).setE oe (.inj .kv), tr := m.tr ++ [⟨.kvGet, .fail⟩], nkv := m.nkv + 1 }
+      .cont { m with env := (m.env.setY oy []).setE oe (errW w (.inj .kv)), tr := m.tr ++ [⟨.kvGet, .fail⟩], nkv := m.nkv + 1 }
     else match m.st.store with
-      | none => .cont { m with env := (m.env.setY oy []).setE oe .keyNotFound, tr := m.tr ++ [⟨.kvGet, .nf⟩], nkv := m.nkv + 1 }
+      | none => .cont { m with env := (m.env.setY oy []).setE oe (errW w .keyNotFound), tr := m.tr ++ [⟨.kvGet, .nf⟩], nkv := m.nkv + 1 }
       | some b => .cont { m with env := (m.env.setY oy b).setE oe .nil, tr := m.tr ++ [⟨.kvGet, .ok⟩], nkv := m.nkv + 1 }
   | .kvHas ob oe, m =>
     if kvFault F m.nkv then
-      .cont { m with env := (m.env.setB ob false).setE oe (.inj .kv), tr := m.tr ++ [⟨.kvHas, .fail⟩], nkv := m.nkv + 1 }
+      .cont { m with env := (m.env.setB ob false).setE oe (errW w (.inj .kv)), tr := m.tr ++ [⟨.kvHas, .fail⟩], nkv := m.nkv + 1 }
     else .cont { m with env := (m.env.setB ob m.st.store.isSome).setE oe .nil, tr := m.tr ++ [⟨.kvHas, .ok⟩], nkv := m.nkv + 1 }
   | .kvSet iy oe, m =>
     if kvFault F m.nkv then
-      .cont { m with env := m.env.setE oe (.inj .kv), tr := m.tr ++ [⟨.kvSet, .fail⟩], nkv := m.nkv + 1 }
+      .cont { m with env := m.env.setE oe (errW w (.inj .kv)), tr := m.tr ++ [⟨.kvSet, .fail⟩], nkv := m.nkv + 1 }
     else .cont { m with st := { m.st with store := some (m.env.y iy) }, env := m.env.setE oe .nil,
                         tr := m.tr ++ [⟨.kvSet, .ok⟩], nkv := m.nkv + 1 }
   | .kvDel oe, m =>
     if kvFault F m.nkv then
-      .cont { m with env := m.env.setE oe (.inj .kv), tr := m.tr ++ [⟨.kvDel, .fail⟩], nkv := m.nkv + 1 }
+      .cont { m with env := m.env.setE oe (errW w (.inj .kv)), tr := m.tr ++ [⟨.kvDel, .fail⟩], nkv := m.nkv + 1 }
     else .cont { m with st := { m.st with store := none }, env := m.env.setE oe .nil,
                         tr := m.tr ++ [⟨.kvDel, .ok⟩], nkv := m.nkv + 1 }
   | .decode iy ov oe, m =>
@@ -354,13 +359,16 @@ structure Prog where
 def noFn : V → Bool → FnRes V := fun _ _ => .fail
 
 /-- One operation of the translated code. -/
-def execOp [Inhabited V] (P : Prog) (C : Codec V) (s : St V) (op : Op V) (F : Faults) : Res V :=
+def execOpW [Inhabited V] (w : Bool) (P : Prog) (C : Codec V) (s : St V) (op : Op V) (F : Faults) : Res V :=
   match op with
-  | .get => finish (fun _ => outGet) (exec C noFn F P.get (start s))
-  | .has => finish (fun _ => outHas) (exec C noFn F P.has (start s))
-  | .set v => finish (fun _ => outErr) (exec C noFn F P.set { start s with env := Env.init.setV P.setParam v })
-  | .delete => finish (fun _ => outErr) (exec C noFn F P.delete (start s))
-  | .compute f => finish outCompute (exec C f F P.compute (start s))
+  | .get => finish (fun _ => outGet) (exec C noFn F w P.get (start s))
+  | .has => finish (fun _ => outHas) (exec C noFn F w P.has (start s))
+  | .set v => finish (fun _ => outErr) (exec C noFn F w P.set { start s with env := Env.init.setV P.setParam v })
+  | .delete => finish (fun _ => outErr) (exec C noFn F w P.delete (start s))
+  | .compute f => finish outCompute (exec C f F w P.compute (start s))
   | .reopen => ⟨{ s with cv := none, ch := none }, .ok, []⟩
+
+/-- Over a store that reports bare sentinels. -/
+abbrev execOp [Inhabited V] (P : Prog) (C : Codec V) (s : St V) (op : Op V) (F : Faults) : Res V := execOpW false P C s op F
 
 end Hive.Typed.Code
